@@ -651,3 +651,123 @@ def gen_c11(tier, rng):
         c = c.replace(" isa=sse2", "")
         cases.append(c)
     return cases
+
+# --------------------------------------------------------------------------
+# substring search through the meta searcher (C03, C04, C08, C10, C16) and Two-Way (C12)
+# --------------------------------------------------------------------------
+CPUS = ["", "sse2", "none"]
+RANKS_MM = ["default", "const0", "const255", "id", "rev"]
+
+def substring_pairs(rng, quick, rev=False):
+    """(needle, haystack) pairs: exhaustive small binary, structured, long needles, prefilter-exhausting haystacks"""
+    pairs = []
+    nx, nh = (4, 9) if quick else (6, 12)
+    needles = words(b"ab", nx)
+    hays = words(b"ab", nh)
+    k = 0
+    for x in needles:
+        for h in hays:
+            k += 1
+            if quick and len(h) > 5 and k % 4:
+                continue
+            pairs.append((x, h))
+    for x in structured_needles(rng, quick):
+        for h in haystacks_for(x, rng, quick):
+            pairs.append((x, h))
+    # lengths around the routing thresholds 15/16 and 63/64, match at both ends
+    for n in (1, 2, 3, 8, 15, 16, 17):
+        x = bytes(0x61 + (i * 3) % 7 for i in range(n))
+        for L in (14, 15, 16, 17, 62, 63, 64, 65, 66, 100):
+            if L >= n:
+                pairs.append((x, b"q" * (L - n) + x))
+                pairs.append((x, x + b"q" * (L - n)))
+                pairs.append((x, b"q" * L))
+    # needles longer than 32 bytes (Two-Way + prefilter) in haystacks below / around the vector minimum
+    for n in (33, 40, 47, 64, 100):
+        x = bytes(0x41 + (i * 7) % 23 for i in range(n))
+        xp = (b"ab" * n)[:n]                                  # periodic long needle
+        for xx in (x, xp, b"xy" + b"z" * (n - 2)):
+            for pre in (0, 1, 2, 7, 16, 30, 64):
+                for post in (0, 1, 17, 40):
+                    pairs.append((xx, b"q" * pre + xx + b"q" * post))
+                    pairs.append((xx, b"q" * pre + xx[:-1] + b"!" + b"q" * post))
+            # rare byte early in the haystack, match later: find_simple's saturating adjustment
+            pairs.append((xx, xx[1:5] + b"q" * 3 + xx + b"q"))
+            pairs.append((xx, xx[-3:] + xx))
+    # haystacks that exhaust the adaptive prefilter (>= 50 candidates, < 8 bytes apart) before a late match
+    for x in (b"xy" + b"z" * 40, b"ab" * 20 + b"c", bytes(range(1, 41))):
+        i1 = 0
+        junk = (x[:2] + b"q") * 70
+        pairs.append((x, junk + x))
+        pairs.append((x, junk + b"q" * 100 + x + b"tail"))
+        pairs.append((x, junk))
+        pairs.append((x, (x[:3] + b"Q") * 80 + x[:-1] + b"Q" + x))
+    if not quick:
+        for _ in range(400):
+            n = rng.choice([rng.randrange(1, 8), rng.randrange(2, 40), rng.randrange(33, 120)])
+            alpha = rng.choice([b"ab", b"abc", bytes(range(97, 105))])
+            x = bytes(rng.choice(alpha) for _ in range(n))
+            L = rng.randrange(0, 400)
+            h = bytearray(rng.choice(alpha) for _ in range(L))
+            if L >= n and rng.random() < 0.7:
+                p = rng.randrange(0, L - n + 1); h[p:p + n] = x
+            pairs.append((x, bytes(h)))
+    return pairs
+
+def gen_mm(tier, rng, fwd=True, configs=True):
+    quick = tier == "quick"
+    cases = []
+    pairs = substring_pairs(rng, quick)
+    k = 0
+    for (x, h) in pairs:
+        k += 1
+        a = (k * 7) % 64
+        if fwd:
+            cpu = CPUS[k % 3]
+            cpus = f" cpu={cpu}" if cpu else ""
+            cases.append(f"mm f=top{cpus} x={hexs(x)} h={hexs(h)} a={a}")
+            cfgs = ["auto", "none"] if (configs and (not quick or k % 2 == 0 or len(x) > 32)) else ["auto"]
+            for cfg in cfgs:
+                rk = RANKS_MM[k % len(RANKS_MM)] if configs else "default"
+                cases.append(f"mm f=find cfg={cfg} rank={rk}{cpus} x={hexs(x)} h={hexs(h)} a={a}")
+        else:
+            cases.append(f"mm f=rtop x={hexs(x)} h={hexs(h)} a={a}")
+            cases.append(f"mm f=rfind x={hexs(x)} h={hexs(h)} a={a}")
+    return cases
+
+def oracle_mm(op, kv, res, trace, flags):
+    x = bytes.fromhex(kv.get("x", "")); h = bytes.fromhex(kv.get("h", ""))
+    if flags:
+        return f"{op}: load outside the slices or misaligned: {flags}"
+    if op == "mm":
+        f = kv["f"]
+        i = h.find(x) if f in ("top", "find") else h.rfind(x)
+        want = "None" if i < 0 else f"Some({i})"
+        return None if res == want else f"memmem {f} (cfg={kv.get('cfg')}, rank={kv.get('rank')}, cpu={kv.get('cpu','host')}) returned {res}, naive search says {want} (|x|={len(x)}, |h|={len(h)})"
+    if op in ("twfind", "twrfind"):
+        if kv.get("fx"):
+            return None
+        i = h.find(x) if op == "twfind" else h.rfind(x)
+        want = "None" if i < 0 else f"Some({i})"
+        return None if res == want else f"{op} returned {res}, naive search says {want}"
+    if op in ("twnew", "twrnew"):
+        return None if not res.startswith("Panic") else f"{op} panicked"
+    return oracle_blocks(op, kv, res, trace, flags)
+
+def gen_tw(tier, rng):
+    quick = tier == "quick"
+    cases = []
+    seen = set()
+    for (x, h) in substring_pairs(rng, quick):
+        if x not in seen:
+            seen.add(x)
+            cases.append(f"twnew x={hexs(x)}")
+            cases.append(f"twrnew x={hexs(x)}")
+        if len(x) >= 1:
+            cases.append(f"twfind x={hexs(x)} h={hexs(h)}")
+            cases.append(f"twrfind x={hexs(x)} h={hexs(h)}")
+    return cases
+
+def gen_c03(tier, rng): return gen_mm(tier, rng, fwd=True)
+def gen_c04(tier, rng): return gen_mm(tier, rng, fwd=False)
+def nontrivial_mm(op, kv): return len(kv.get("x", "")) >= 4 and len(kv.get("h", "")) >= 8
